@@ -178,6 +178,23 @@ func init() {
 			}
 			panic(hardErr("strconv.Atoi of a string not built by Itoa"))
 		},
+		"strconv.ParseInt": func(e *Engine, c *callCtx) bool {
+			s := c.args[0].(StrV)
+			if s.k == strOpaque && s.tag == "itoa" {
+				c.set(TupleV{IntV{s.t, 64, true}, IfaceV{}})
+				return true
+			}
+			if s.k == strLit {
+				var v int64
+				if _, err := fmt.Sscanf(s.lit, "%d", &v); err == nil && fmt.Sprint(v) == s.lit {
+					c.set(TupleV{e.goInt(v), IfaceV{}})
+					return true
+				}
+			}
+			eo := e.newObj(c.st, &Object{kind: kStruct, typ: e.wrapErrType(), fields: []Value{e.freshOpaqueStr("errstr")}})
+			c.set(TupleV{e.goInt(0), IfaceV{typ: e.wrapErrType(), val: PtrV{eo, -1}}})
+			return true
+		},
 		"context.WithCancel": func(e *Engine, c *callCtx) bool {
 			ch := ChanV{e.newObj(c.st, &Object{kind: kChan, ch: &chanState{cap: 0}})}
 			id := e.newObj(c.st, &Object{kind: kStruct, typ: e.ctxType(), fields: []Value{ch}})
@@ -319,6 +336,10 @@ func stubLock(write bool) stubFn {
 		}
 		st := c.st
 		held := st.locks[id]
+		if !write && held > 0 && held < 1000 {
+			// recursive read lock: deadlocks as soon as a writer arrives between the two RLock calls
+			e.failHere(st, e.hprop+".no_deadlock", "lock", "recursive RLock of the same RWMutex by one goroutine (prohibited: a waiting writer blocks the inner RLock) @ "+e.pos(c.f, c.in))
+		}
 		if held >= 1000 || (write && held > 0) {
 			e.failHere(st, e.hprop+".no_deadlock", "lock", "lock acquired while already held by this goroutine @ "+e.pos(c.f, c.in))
 			st.status = "blocked"
